@@ -99,13 +99,13 @@ def gen_spec(rng, text: str, cheap_only: bool) -> tuple[dict, str]:
     preds = workload.predicates_of(text) if text.strip() and len(text) < 5000 else []
     for key in ("inp", "out"):
         r = rng.random()
-        if r < 0.45:
+        if r < 0.36:
             dcls = "absent"
-        elif r < 0.55:
+        elif r < 0.46:
             spec[key], dcls = "auto", "auto"
-        elif r < 0.65:
+        elif r < 0.56:
             spec[key], dcls = "NOVALUE", "novalue"
-        elif r < 0.73:
+        elif r < 0.64:
             spec[key], dcls = "", "empty"
         elif r < 0.95:
             chosen = [p for p in preds if rng.random() < 0.45]
